@@ -19,6 +19,7 @@ pub(crate) mod prng;
 mod c01;
 mod c14;
 mod c15;
+mod sysop;
 
 use std::env;
 
@@ -45,6 +46,7 @@ fn verif_entry() {
         "c01" => c01::run(seed, n, &mut out),
         "c14" => c14::run(seed, n, &mut out),
         "c15" => c15::run(seed, n, &mut out),
+        "sys" => sysop::run(seed, n, &mut out),
         other => panic!("unknown VERIF_OP {}", other),
     }
     out.finish();
